@@ -170,7 +170,10 @@ def check_C05(tr):
     for d, f, g, s in day_rows(tr):
         t = d["tsc"]; gs = bool(s[1]); k = d["season"]
         if not np.all(np.isfinite(g)):
-            out.append(V("C05:nonfinite", "non-finite crop output %r on step %d" % ([n for n, i in GR.items() if not np.isfinite(g[i])], t), step=t))
+            badc = [n for n, i in GR.items() if not np.isfinite(g[i])]
+            ck = init["crops_live"].get(k, init["crops"][max(k, 0)])
+            tag = ":YldWC0" if (badc == ["FreshYield"] and not ck.get("YldWC")) else ""
+            out.append(V("C05:nonfinite:%s%s" % ("+".join(badc), tag), "non-finite crop output %r on step %d" % (badc, t), step=t))
             break
         if gs:
             c = init["crops_live"].get(k, init["crops"][k])
@@ -186,8 +189,8 @@ def check_C05(tr):
             hi, hia = g[GR["harvest_index"]], g[GR["harvest_index_adj"]]
             if hi > c["HI0"] + 1e-9:
                 out.append(V("C05:hi_gt_ref", "harvest index %.9g exceeds HI0=%.4g on step %d" % (hi, c["HI0"], t), step=t))
-            if hia > c["HI0"] * (1 + c["dHI0"] / 100.0) + 1e-9:
-                out.append(V("C05:hiadj_cap", "adjusted harvest index %.9g exceeds HI0*(1+dHI0/100)=%.9g on step %d" % (hia, c["HI0"] * (1 + c["dHI0"] / 100.0), t), step=t))
+            if hia > c["HI0"] * (1 + max(c["dHI0"], 0) / 100.0) + 1e-9:
+                out.append(V("C05:hiadj_cap", "adjusted harvest index %.9g exceeds HI0*(1+dHI0/100)=%.9g on step %d" % (hia, c["HI0"] * (1 + max(c["dHI0"], 0) / 100.0), t), step=t))
             gdd = g[GR["gdd"]]
             if gdd < -1e-12 or gdd > (c["Tupp"] - c["Tbase"]) + 1e-9:
                 out.append(V("C05:gdd_range", "gdd %.9g outside [0, Tupp-Tbase] on step %d" % (gdd, t), step=t))
